@@ -12,7 +12,8 @@
    Abstractions (definitions only; everything below extracts):
    - an archive is what Decompressor::open + get_sample + the CNV_NUM decode of write_sample_fasta give:
      samples in archive order, contigs in order, each with its ASCII letters, or None when
-     reconstruct_contig returns Err / panics for that contig (corrupt data).  C01/C08/C14 own that layer.
+     reconstruct_contig returns Err / panics for that contig (corrupt data); a sample whose contig list cannot be
+     loaded at all has None instead of a list.  C01/C08/C14 own that layer.
    - [decode : bytes of the archive file -> option archive] is a Section variable: None = Decompressor::open
      returns Err (missing footer, truncation, garbage).
    - the file system: path -> bytes (first binding wins), File::create truncates, a handle is (path, offset)
@@ -44,16 +45,18 @@ Fixpoint mem_str (p : str) (l : list str) : bool :=
 
 (* ------------------------------------------------------------------ abstract archive *)
 Definition contig := (str * option str)%type.          (* name, letters (None = cannot be reconstructed) *)
-Definition sample := (str * list contig)%type.
+(* a sample listed by list_samples whose contig metadata cannot be loaded (load_contig_batch returns Err on a
+   damaged collection stream) has None: list_contigs and get_sample fail for it, listset still prints it *)
+Definition sample := (str * option (list contig))%type.
 Definition archive := list sample.
 
 (* Decompressor::list_samples = collection.get_samples_list(false): archive order *)
 Definition list_samples (ar : archive) : list str := map fst ar.
 
-(* sample_ids.get(name) *)
+(* load the contig batches, then sample_ids.get(name): None = unknown sample or unloadable metadata *)
 Definition find_sample (ar : archive) (name : str) : option (list contig) :=
   match find (fun s => str_eqb (fst s) name) ar with
-  | Some s => Some (snd s)
+  | Some s => snd s
   | None => None
   end.
 
